@@ -62,6 +62,9 @@ CLAIMS.update({
         'by oracle + correspondence. Two known findings (negligible leading coefficient).',
    ref='6 / C15'),
 })
+PENDING = {'C15'}   # claimed once the theorems are merged
+for _p in PENDING:
+    CLAIMS.pop(_p, None)
 NA = {}
 def main():
     ids = ['C%02d' % i for i in range(1, 21)]
